@@ -16,13 +16,16 @@ RULE = (
     "case i -> rng(seed, C13, i): a random output (mesh + optional grav/rt/part/sink, ndim 1-3, 1-8 CPUs) and a "
     "restriction in one of the forms: list of groups, groups switched off with False, list of variable names "
     "per group (random subsets across amr/hydro/grav/rt/part descriptors incl. dropped first/middle/last "
-    "variables, whole descriptors, single components of vectors), and mixtures.  Non-trivial = at least one "
+    "variables, whole descriptors, single components of vectors; hydro variables stored as int32 on single-CPU "
+    "outputs), and mixtures.  Non-trivial = at least one "
     "variable is skipped that precedes a variable that is read, in a file with >=2 (level, domain) blocks; "
     "distinct = distinct (spec, restriction)."
 )
 ASSUMPTIONS = [
     "derived variables (mass, B_field) are expected exactly when their inputs are among the loaded variables",
     "the full load itself is judged by C01/C14",
+    "mesh variables stored as int32 (the descriptor's type column) are generated on single-CPU outputs without boundary "
+    "regions only: the reader steps over whole foreign blocks assuming doubles, which no RAMSES version contradicts",
 ]
 
 
